@@ -30,7 +30,11 @@ func (s *State) evalUnquoteCalls(quoted ast.Node) ast.Node {
 			return node
 		}
 		unquoted := s.evalInternal(call.Parameters[0])
-		return convertObjectToASTNode(unquoted)
+		converted := convertObjectToASTNode(unquoted)
+		if converted == nil { // unsupported type: keep the unquote call rather than a nil node in the tree.
+			return node
+		}
+		return converted
 	})
 }
 
